@@ -276,7 +276,11 @@ def _copy_installed_folder_to_cache(cache_folder, sub_folder=""):
         cache_name = os.path.join(cache_folder, basename)
         install_name = os.path.join(source_folder, basename)
         if not os.path.isdir(install_name) and not os.path.exists(cache_name):
-            shutil.copy(install_name, cache_name)
+            # Copy under a temporary name and rename: an interrupted copy must never leave a partial file
+            # under the final name (the temporary name does not match the schema file pattern).
+            temp_name = f"{cache_name}.{os.getpid()}.tmp"
+            shutil.copy(install_name, temp_name)
+            os.replace(temp_name, cache_name)
 
 
 def _check_if_url(hed_xml_or_url):
